@@ -1,5 +1,6 @@
 import CssVerif.Lemmas.Encutils
 import CssVerif.Lemmas.EncutilsDoc
+import CssVerif.Lemmas.EncutilsXml
 /-!
 # C20 — encutils reports the document encoding by the documented precedence
 
@@ -428,6 +429,51 @@ theorem sniff_no_encoding_declared (rest : Cps) (incl : Bool) :
   have hn : ∀ r, declMatch (cps "<?xml version=\"1.0\"?>" ++ r) = none := fun r => by
     rw [declMatch_spec]; rfl
   rw [hcons, xml_sniff_spec, hbom, ← hcons, take_append_le _ rest 2048 (by decide), hn]
+
+/-! ### the strict XML 1.0 reading (`XMLDecl`, productions [23]–[26], [32], [80], [81]; `Lemmas/EncutilsXml.lean`)
+
+The pattern of the code is laxer than XML 1.0 (`decl_iff`); on every declaration that XML 1.0 allows it reads what
+XML 1.0 says. -/
+
+/-- T20.4 strict, with EncodingDecl: a document that starts with an XML 1.0 declaration whose EncName is `e`
+(any legal white space, either quote kind, VersionNum `1.`digits, optional `standalone`, optional `S` before `?>`)
+that ends within the first 2048 characters is sniffed as `lower e`, whatever follows -/
+theorem strict_declaration_read (d e rest : Cps) (incl : Bool) (hd : XMLDecl d (some e)) (hfit : d.length ≤ 2048) :
+    detectXML (d ++ rest) incl = .ok (some (lower e)) := by
+  obtain ⟨vi, ed, sd, s, rfl, ⟨v, s1, x1, x2, q, rfl, hs1, n1, hx1, hx2, hq, hv⟩,
+    ⟨s2, y1, y2, q', rfl, hs2, n2, hy1, hy2, hq', he⟩, hsd, hs⟩ := hd
+  have hform : cps "<?xml" ++ (s1 ++ cps "version" ++ x1 ++ cps "=" ++ x2 ++ [q] ++ v ++ [q]) ++
+      (s2 ++ cps "encoding" ++ y1 ++ cps "=" ++ y2 ++ [q'] ++ e ++ [q']) ++ sd ++ s ++ cps "?>" =
+      cps "<?xml" ++ s1 ++ cps "version" ++ x1 ++ cps "=" ++ x2 ++ [q] ++ v ++ [q] ++ s2 ++
+        cps "encoding" ++ y1 ++ cps "=" ++ y2 ++ [q'] ++ e ++ [q'] ++ (sd ++ s) ++ cps "?>" := by
+    simp only [List.append_assoc]
+  rw [hform] at hfit ⊢
+  exact sniff_declared s1 x1 x2 q v q s2 y1 y2 q' e q' (sd ++ s) rest incl (allWs_of_xmlS hs1) n1 (allWs_of_xmlS hx1)
+    (allWs_of_xmlS hx2) hq (noQuote_of_versionNum hv) hq (allWs_of_xmlS hs2) n2 (allWs_of_xmlS hy1) (allWs_of_xmlS hy2)
+    hq' (noQuote_of_encName he).2 (noQuote_of_encName he).1 hq' (noEnd_tail hsd hs) hfit
+
+/-- T20.4 strict, without EncodingDecl: a document that starts with an XML 1.0 declaration that declares no encoding
+is UTF-8 (nothing, for `includeDefault=False`), whatever follows — also an `encoding="…"` further on -/
+theorem strict_declaration_no_encoding (d rest : Cps) (incl : Bool) (hd : XMLDecl d none) (hfit : d.length ≤ 2048) :
+    detectXML (d ++ rest) incl = .ok (if incl then some (cps "utf-8") else none) := by
+  obtain ⟨t, hdt⟩ := xmlDecl_head d none hd
+  have hbom : specBom 60 63 120 109 = none := by decide
+  have hcons : d ++ rest = 60 :: 63 :: 120 :: 109 :: (t ++ rest) := by rw [hdt]; rfl
+  rw [hcons, xml_sniff_spec, hbom, ← hcons, take_append_le d rest 2048 hfit, declMatch_strict_none d _ hd]
+
+/-- non-vacuity: declarations in the strict grammar (tests) -/
+example : XMLDecl (cps "<?xml version=\"1.0\" encoding='UTF-8' standalone=\"yes\" ?>") (some (cps "UTF-8")) :=
+  ⟨cps " version=\"1.0\"", cps " encoding='UTF-8'", cps " standalone=\"yes\"", cps " ", by decide,
+    ⟨cps "1.0", cps " ", [], [], 34, by decide, by decide, by decide, by decide, by decide, Or.inl rfl,
+      ⟨cps "0", by decide, by decide, by decide⟩⟩,
+    ⟨cps " ", [], [], 39, by decide, by decide, by decide, by decide, by decide, Or.inr rfl,
+      ⟨85, cps "TF-8", by decide, by decide, by decide⟩⟩,
+    Or.inr ⟨cps "yes", cps " ", [], [], 34, by decide, by decide, by decide, by decide, by decide, Or.inl rfl, Or.inl rfl⟩,
+    by decide⟩
+example : XMLDecl (cps "<?xml\nversion = '1.1'?>") none :=
+  ⟨cps "\nversion = '1.1'", [], [], [], by decide,
+    ⟨cps "1.1", cps "\n", cps " ", cps " ", 39, by decide, by decide, by decide, by decide, by decide, Or.inr rfl,
+      ⟨cps "1", by decide, by decide, by decide⟩⟩, rfl, Or.inl rfl, by decide⟩
 
 /-- the two former declaration findings at their witnesses, now the right way round (tests): a legal declaration that
 continues on the next line is found; an element attribute after a declaration without encoding is ignored; another
